@@ -12,7 +12,7 @@ from typing import (
     Union,
 )
 
-from numpy import logical_not, ndarray
+from numpy import empty_like, logical_not, ndarray
 
 from mygrad._utils import WeakRefIterable
 from mygrad.operation_base import Operation
@@ -273,7 +273,11 @@ class UnView(Operation):
         # dℒ/d(base) = [0., 0., g2]
         # dℒ/d(view) = [g0, g1]
         if index == 0:  # compute dℒ/d(base)
-            grad = grad.copy()
+            # copy `grad` into an array with the memory layout of the base's data
+            # so that the view-functions produce views of it
+            _grad = empty_like(placeholder_base.data, dtype=grad.dtype)
+            _grad[...] = grad
+            grad = _grad
             grad_view = grad
             for fn in self._view_fn_seq:
                 grad_view = fn(grad_view)
